@@ -73,6 +73,18 @@ func (w *World) VerifyFunc(fn *ssa.Function, mode *Mode, prop string) (x *X, err
 			nullable[n] = true
 		}
 	}
+	// ghost variables exist from the start (so that merges keep per-path values)
+	{
+		ge := &Env{x: x}
+		var gnames []string
+		for n := range w.Specs.Ghosts {
+			gnames = append(gnames, n)
+		}
+		sort.Strings(gnames)
+		for _, n := range gnames {
+			x.heapRead(st, "ghost:"+n, ge.sortByName(w.Specs.Ghosts[n].Sort))
+		}
+	}
 	// user axioms
 	axEnv := &Env{x: x, st: st, vars: map[string]SV{}, pkg: funcPkg(fn)}
 	for _, ax := range w.Specs.Axioms {
